@@ -43,6 +43,7 @@ two equivalent forms the rules get to see, so soundness never depends on the ref
   S26 if A and B: BODY    ->  if A: if B: BODY        (no else) when the reference function tests A on its own
   S27 f"{a}\t{b}\n"       ->  str(a) + '\t' + str(b) + '\n'      an f-string without format specs that the reference function does not have
   S28 for i, x in enumerate(X, k)  ->  i = k; for x in X: ...; i += 1   where the reference loop over X binds only x (manual counter form)
+  S29 (a1, a2) < (b1, b2) ->  a1 < b1 or (a1 == b1 and a2 < b2)      lexicographic comparison of tuple displays (also <=, >, >=), not in the reference
   S12 a = ..; b = ..      ->  b = ..; a = ..          adjacent call-free assignments without data dependence are put in the
                                                       order the reference function has them in
 
@@ -221,6 +222,21 @@ class _Canon(ast.NodeTransformer):
 
     def visit_Compare(self, n):
         self.generic_visit(n)
+        if len(n.ops) == 1 and isinstance(n.ops[0], (ast.Lt, ast.LtE, ast.Gt, ast.GtE)) and isinstance(n.left, ast.Tuple) \
+                and isinstance(n.comparators[0], ast.Tuple) and len(n.left.elts) == len(n.comparators[0].elts) >= 2 \
+                and U(n) not in self.cmp and all(_pure(e) for e in n.left.elts + n.comparators[0].elts):
+            import copy as _c5
+            strict = ast.Lt if isinstance(n.ops[0], (ast.Lt, ast.LtE)) else ast.Gt
+
+            def lex(ls, rs):
+                if len(ls) == 1:
+                    return ast.Compare(left=ls[0], ops=[type(n.ops[0])()], comparators=[rs[0]])
+                head = ast.Compare(left=ls[0], ops=[strict()], comparators=[rs[0]])
+                eq = ast.Compare(left=_c5.deepcopy(ls[0]), ops=[ast.Eq()], comparators=[_c5.deepcopy(rs[0])])
+                return ast.BoolOp(op=ast.Or(), values=[head, ast.BoolOp(op=ast.And(), values=[eq, lex(ls[1:], rs[1:])])])
+            out = lex(list(n.left.elts), list(n.comparators[0].elts))
+            self.steps.append('S29 ' + U(n)[:60])
+            return self.visit(_relocate(out, n))
         if len(n.ops) == 1 and type(n.ops[0]) in MIRROR and U(n) not in self.cmp:
             m = ast.copy_location(ast.Compare(left=n.comparators[0], ops=[MIRROR[type(n.ops[0])]()], comparators=[n.left]), n)
             if U(m) in self.cmp:
